@@ -159,6 +159,10 @@ func init() {
 			return err
 		}
 
+		// TLS clients with different names / protocols through tls -> proxy with a TLS upstream (shared upstream TLS configuration)
+		if err := concTLSUpstream(base, lw); err != nil {
+			return err
+		}
 		// one client, two peers of one upstream writing to it at the same time
 		if err := concProxyTwoPeers(); err != nil {
 			return err
